@@ -29,6 +29,13 @@ RULES = {
               "every solve with coefficient -1; lap is the connection Laplacian of self.mesh for connection=self.conn, order=self.order, cotan=self.use_cotan",
     "C18-N1": "on every path to a normal exit of optimize() a self.normalize() follows the last write to self.var; normalize() divides every "
               "non-zero entry by its modulus; the vertex constraint initialisation ends with the normalising loop",
+    "C18-E1": "constraint initialisation: a complex number built from the stored direction of an edge (vertices[b] - vertices[a] with a, b = edges[e]) "
+              "enters self.var only through an even power - an even literal exponent, or an exponent whose evenness is tested on the path - so that "
+              "the constraint does not depend on the orientation in which the edge is stored",
+    "C18-L1": "connection Laplacians used by the solvers: every off-diagonal entry of the connection branch of operators.laplacian is "
+              "m * rect(1, phase) with the magnitude m of the scalar branch, phase_ij + phase_ji = 0 mod 2*pi*order (Hermitian) and "
+              "phase = 0 mod 2*pi*order when transport(j,i) = transport(i,j) +- pi (flat connection); laplacian_triangles is N^H [D] N with rows "
+              "(-1, rect(1, order*transport)) that reduce to (-1, 1) for a zero transport",
     "C18-P1": "antisymmetric parallel transport: every store tr[(x,y)] = w is paired, in the same block, with tr[(y,x)] = -w (x != y); "
               "transport(a, b) reads tr[(a, b)]",
 }
@@ -39,6 +46,8 @@ def run(ctx):
         f1_h1(ctx, mod, cls, elem)
     n1_normalize(ctx)
     p1_transport(ctx)
+    e1_even_power(ctx)
+    l1_flat_reduction(ctx)
 
 
 # ------------------------------------------------------------------------------ helpers
@@ -520,3 +529,328 @@ def p1_transport(ctx):
     ctx.check(ok, "C18-P1", ctx.site(CONN, fn), "SurfaceConnection.transport(a, b) does not read self._transport[(a, b)]",
               "a swapped key negates every transport angle seen by the Laplacians", note="transport(a,b) = tr[(a,b)]")
     fl.require(11)
+
+
+# ------------------------------------------------------------------------------ C18-E1
+def _even_exponent(e):
+    """exponent is even for every integer value of its atoms: even literal, or integer polynomial with all coefficients even"""
+    p = H.poly(e)
+    if not p.t:
+        return True
+    return all(c.denominator == 1 and int(c) % 2 == 0 for c in p.t.values()) and not any(a.startswith(("1/(", "<")) for a in p.atoms())
+
+
+def _evenness_guarded(node, expo, fn):
+    """the path condition of `node` implies that `expo` is even"""
+    want = au.src(expo)
+
+    def atom(x, boolean):
+        if isinstance(x, ast.Compare) and len(x.ops) == 1 and isinstance(x.ops[0], (ast.Eq, ast.NotEq)) \
+                and isinstance(x.left, ast.BinOp) and isinstance(x.left.op, ast.Mod) and au.src(x.left.left) == want \
+                and au.const(x.left.right) == 2 and au.const(x.comparators[0]) in (0, 1):
+            odd = (au.const(x.comparators[0]) == 1) == isinstance(x.ops[0], ast.Eq)
+            n = H.name("odd")
+            return n if odd else ast.UnaryOp(op=ast.Not(), operand=n)
+        if isinstance(x, ast.BinOp) and isinstance(x.op, ast.Mod) and au.src(x.left) == want and au.const(x.right) == 2 and boolean:
+            return H.name("odd")
+        return None
+    ab = H.Abstractor(atom)
+    code = ab.boolean(H.conj([(t, p) for t, p, _ in H.path_condition(node, stop=fn)]))
+    try:
+        wit, _ = H.compare(ast.BoolOp(op=ast.And(), values=[code, H.name("odd")]), "False")
+    except order.Unsupported:
+        return False
+    return wit is None
+
+
+def e1_even_power(ctx):
+    fl = H.Floor(ctx, "C18-E1")
+    for mod, qual in ((FACES, "_BaseFrameField2DFaces._initialize_variables"), (VERTS, "_BaseFrameField2DVertices._initialize_variables")):
+        fn = ctx.repo.func(mod, qual)
+        site = ctx.site(mod, fn)
+        # sources: D = <...>.vertices[b] - <...>.vertices[a]   with a, b unpacked from <...>.edges[e]
+        pairs = set()
+        for st in au.stmts(fn.body):
+            if isinstance(st, ast.Assign) and len(st.targets) == 1 and isinstance(st.targets[0], (ast.Tuple, ast.List)) \
+                    and len(st.targets[0].elts) == 2 and all(isinstance(x, ast.Name) for x in st.targets[0].elts) \
+                    and isinstance(st.value, ast.Subscript) and isinstance(st.value.value, ast.Attribute) and st.value.value.attr == "edges":
+                pairs.add(frozenset(x.id for x in st.targets[0].elts))
+
+        def is_source(e):
+            if isinstance(e, ast.BinOp) and isinstance(e.op, ast.Sub):
+                l, r = e.left, e.right
+                if all(isinstance(x, ast.Subscript) and isinstance(x.value, ast.Attribute) and x.value.attr == "vertices"
+                       and isinstance(x.slice, ast.Name) for x in (l, r)):
+                    return frozenset((l.slice.id, r.slice.id)) in pairs
+            return False
+
+        pows = []
+
+        def taint_of(e, tainted):
+            """does e carry the sign of a stored edge direction (even powers cleanse)"""
+            if isinstance(e, ast.BinOp) and isinstance(e.op, ast.Pow):
+                if taint_of(e.left, tainted):
+                    pows.append(e)
+                return False
+            if isinstance(e, ast.Call) and au.call_tail(e) in ("abs", "norm", "len"):
+                for a in e.args:
+                    taint_of(a, tainted)      # still visit nested powers
+                return False
+            if is_source(e):
+                return True
+            if isinstance(e, ast.Name):
+                return e.id in tainted
+            return any(taint_of(c, tainted) for c in ast.iter_child_nodes(e) if isinstance(c, ast.expr))
+
+        tainted = set()
+        for _ in range(6):
+            before = len(tainted)
+            for st in au.stmts(fn.body):
+                if isinstance(st, ast.Assign):
+                    if taint_of(st.value, tainted):
+                        for t in st.targets:
+                            for n in au.assigned_names(t):
+                                tainted.add(n)
+            if len(tainted) == before:
+                break
+        if not tainted:
+            ctx.fail("C18-E1", site, f"{qual}: edge direction `vertices[b] - vertices[a]` of a feature edge not found",
+                     "the constraint is documented as tangent to the border / feature edge")
+            continue
+        pows.clear()
+        leaks = []
+        for st in au.stmts(fn.body):
+            val = getattr(st, "value", None)
+            if val is None or not isinstance(st, (ast.Assign, ast.AugAssign)):
+                continue
+            t = taint_of(val, tainted)
+            if t and any(isinstance(x, ast.Subscript) and au.is_self_attr(x.value, "var") for tg in au.assign_targets(st) for x in ast.walk(tg)):
+                leaks.append(st)
+        for st in leaks:
+            ctx.fail("C18-E1", ctx.site(mod, fn, st), f"{qual}: the stored direction of an edge enters self.var without going through a power",
+                     f"`{au.src(st)}`: reversing the stored orientation of the edge (renumbering its endpoints) negates the constraint")
+        seen = set()
+        for pw in pows:
+            if id(pw) in seen:
+                continue
+            seen.add(id(pw))
+            ok = _even_exponent(pw.right) or _evenness_guarded(pw, pw.right, fn)
+            ctx.check(ok, "C18-E1", ctx.site(mod, fn, pw),
+                      f"{qual}: the direction of a stored edge is raised to a power that can be odd",
+                      f"`{au.src(pw)}`: the edge is stored as (a, b) with an orientation that depends on the vertex numbering; (-c)**k = c**k only for even k, "
+                      "so with an odd exponent (odd field order) the constrained frame flips with the numbering.  In the face basis the edge direction is "
+                      "+-1, any even literal gives the same constraint for every order",
+                      note=f"{qual}: `{au.src(pw)}` even power of the edge direction")
+    fl.require(3)
+
+
+# ------------------------------------------------------------------------------ C18-L1
+LAPM = "operators.laplacian_op"
+
+
+def _phase_poly(e, b, at, order_name):
+    """(magnitude Poly, phase Poly) of  m * rect(1, phi) [.conjugate()] ; None if not of that form"""
+    e = b.resolve(e, at=at, keep=(order_name,))
+
+    def atom_of(x):
+        c = au.chain(x)
+        if (c and c[-1] == "pi") or (isinstance(x, ast.Name) and x.id == "pi"):
+            return sym.Poly.atom("pi")
+        if isinstance(x, ast.Call) and au.call_tail(x) == "transport" and len(x.args) == 2:
+            return sym.Poly.atom("t[" + au.src(x.args[0]) + "," + au.src(x.args[1]) + "]")
+        return None
+
+    def split(x):
+        """-> (list of magnitude factor exprs, phase Poly, sign)"""
+        if isinstance(x, ast.UnaryOp) and isinstance(x.op, ast.USub):
+            r = split(x.operand)
+            return None if r is None else (r[0], r[1], -r[2])
+        if isinstance(x, ast.BinOp) and isinstance(x.op, ast.Mult):
+            l, r = split(x.left), split(x.right)
+            if l is None or r is None:
+                return None
+            return l[0] + r[0], l[1] + r[1], l[2] * r[2]
+        if isinstance(x, ast.Call) and au.call_tail(x) in ("conjugate", "conj") and isinstance(x.func, ast.Attribute) and not x.args:
+            r = split(x.func.value)
+            return None if r is None or r[0] else ([], -r[1], r[2])
+        if isinstance(x, ast.Call) and au.call_tail(x) == "rect" and len(x.args) == 2:
+            if au.const(x.args[0]) not in (1, 1.0):
+                return None
+            return [], _poly_with(x.args[1], atom_of), 1
+        return [x], sym.Poly(), 1
+    r = split(e)
+    if r is None:
+        return None
+    mag = sym.Poly.const(r[2])
+    for f in r[0]:
+        mag = mag * _poly_with(f, atom_of)
+    return mag, r[1]
+
+
+def _is_period(p, order_name):
+    """p == k * 2*pi*order for an integer k (including 0)"""
+    if p.is_zero():
+        return True
+    if len(p.t) != 1:
+        return False
+    (mono, c), = p.t.items()
+    return sorted(mono) == sorted((order_name, "pi")) and c.denominator == 1 and int(c) % 2 == 0
+
+
+def _subst_atom(p, atom, repl):
+    out = sym.Poly()
+    for mono, c in p.t.items():
+        term = sym.Poly.const(c)
+        for a in mono:
+            term = term * (repl if a == atom else sym.Poly.atom(a))
+        out = out + term
+    return out
+
+
+def _coo_emits(body, arrays):
+    """[(row, col, value, stmt)] of `rows[k], cols[k], vals[k], k = r, c, v, k+1` style stores among the statements of body"""
+    rows, cols, vals = arrays
+    out = []
+    for st in au.stmts(body):
+        if isinstance(st, ast.Assign) and len(st.targets) == 1 and isinstance(st.targets[0], ast.Tuple) \
+                and isinstance(st.value, ast.Tuple) and len(st.value.elts) == len(st.targets[0].elts):
+            got = {}
+            for t, v in zip(st.targets[0].elts, st.value.elts):
+                if isinstance(t, ast.Subscript) and isinstance(t.value, ast.Name) and t.value.id in (rows, cols, vals):
+                    got[t.value.id] = v
+            if len(got) == 3:
+                out.append((got[rows], got[cols], got[vals], st))
+    return out
+
+
+def l1_flat_reduction(ctx):
+    fl = H.Floor(ctx, "C18-L1")
+    fn = ctx.repo.func(LAPM, "laplacian")
+    site = ctx.site(LAPM, fn)
+    b = sym.Bindings(fn)
+    ps = au.params(fn)
+    order_name = "order" if "order" in ps else None
+    conn = "connection" if "connection" in ps else None
+    arrays = None
+    for c in au.calls(fn):
+        if au.call_tail(c) in ("csc_matrix", "csr_matrix", "coo_matrix") and c.args and isinstance(c.args[0], ast.Tuple) \
+                and len(c.args[0].elts) == 2 and isinstance(c.args[0].elts[1], ast.Tuple) and len(c.args[0].elts[1].elts) == 2 \
+                and all(isinstance(x, ast.Name) for x in [c.args[0].elts[0]] + c.args[0].elts[1].elts):
+            arrays = (c.args[0].elts[1].elts[0].id, c.args[0].elts[1].elts[1].id, c.args[0].elts[0].id)
+    branch = None
+    for st in au.stmts(fn.body):
+        if isinstance(st, ast.If) and st.orelse and conn:
+            t = st.test
+            pos = None
+            if isinstance(t, ast.Compare) and len(t.ops) == 1 and H.is_name(t.left, conn) and au.const(t.comparators[0], 0) is None \
+                    and isinstance(t.comparators[0], ast.Constant):
+                pos = isinstance(t.ops[0], ast.IsNot)
+            elif H.is_name(t, conn):
+                pos = True
+            if pos is not None and arrays and (_coo_emits(st.body, arrays) or _coo_emits(st.orelse, arrays)):
+                branch = (st.body, st.orelse) if pos else (st.orelse, st.body)
+    if not (arrays and order_name and branch):
+        ctx.fail("C18-L1", site, "laplacian: connection / scalar branches of the assembly (`if connection is not None`) not found",
+                 "the frame-field solvers rely on this operator being Hermitian and reducing to the scalar Laplacian for a flat connection")
+    else:
+        cb, sb = (_coo_emits(x, arrays) for x in branch)
+        scal = {(au.src(r), au.src(c)): _poly_with(b.resolve(v, at=st), lambda x: None) for r, c, v, st in sb}
+        ent = {}
+        for r, c, v, st in cb:
+            pp = _phase_poly(v, b, st, order_name)
+            esite = ctx.site(LAPM, fn, st)
+            key = (au.src(r), au.src(c))
+            if pp is None:
+                ctx.fail("C18-L1", esite, f"laplacian: connection entry ({key[0]}, {key[1]}) is not magnitude * rect(1, phase)",
+                         f"found `{au.src(v)}`")
+                continue
+            ent[key] = (pp, st)
+            mag, ph = pp
+            ctx.check(key in scal and mag == scal[key], "C18-L1", esite,
+                      f"laplacian: magnitude of the connection entry ({key[0]}, {key[1]}) differs from the scalar branch",
+                      f"connection: {mag!r}, scalar: {scal.get(key)!r}; for a flat connection the operator must be the scalar Laplacian",
+                      note=f"({key[0]},{key[1]}): magnitude as in the scalar branch")
+            # flat reduction: t[j,i] = t[i,j] +- pi
+            tij, tji = f"t[{key[0]},{key[1]}]", f"t[{key[1]},{key[0]}]"
+            okf = True
+            res = []
+            for s in (1, -1):
+                q = _subst_atom(ph, tji, sym.Poly.atom(tij) + sym.Poly.atom("pi").scale(s))
+                res.append(repr(q))
+                okf = okf and _is_period(q, order_name)
+            ctx.check(okf, "C18-L1", esite,
+                      f"laplacian: the phase of entry ({key[0]}, {key[1]}) does not vanish (mod 2*pi*order) for a flat connection",
+                      f"phase {ph!r}; with transport(j,i) = transport(i,j) +- pi (opposite directions of one edge in a common basis) it becomes "
+                      f"{res[0]} / {res[1]}, which is not a multiple of 2*pi*order for odd orders: the sign of the off-diagonal entries flips",
+                      note=f"({key[0]},{key[1]}): phase = 0 mod 2*pi*order for a flat connection")
+        for (r, c), ((mag, ph), st) in ent.items():
+            if (c, r) not in ent:
+                ctx.fail("C18-L1", ctx.site(LAPM, fn, st), f"laplacian: connection entry ({r}, {c}) has no transposed entry", "the operator is not Hermitian")
+                continue
+            if (r, c) < (c, r):
+                tot = ph + ent[(c, r)][0][1]
+                ctx.check(_is_period(tot, order_name) and mag == ent[(c, r)][0][0], "C18-L1", ctx.site(LAPM, fn, st),
+                          f"laplacian: entries ({r}, {c}) and ({c}, {r}) of the connection branch are not conjugate",
+                          f"phases sum to {tot!r} (must be a multiple of 2*pi*order), magnitudes {mag!r} / {ent[(c, r)][0][0]!r}",
+                          note=f"({r},{c}) / ({c},{r}) conjugate")
+        if not ent:
+            ctx.fail("C18-L1", site, "laplacian: no off-diagonal entry found in the connection branch", "")
+    # ---- laplacian_triangles
+    fn = ctx.repo.func(LAPM, "laplacian_triangles")
+    site = ctx.site(LAPM, fn)
+    b = sym.Bindings(fn)
+    stores = H.subscript_stores(fn, lambda x: isinstance(x, ast.Name))
+    rows = {}
+    for st, tgt, val in stores:
+        if isinstance(tgt.slice, ast.Tuple) and len(tgt.slice.elts) == 2 and val is not None:
+            cond = [au.src(t) for t, p, _ in H.path_condition(st, stop=fn) if "connection" in au.src(t)]
+            pol = [p for t, p, _ in H.path_condition(st, stop=fn) if "connection" in au.src(t)]
+            if len(cond) == 1:
+                is_conn = pol[0] == ("is not None" in cond[0] or cond[0] == "connection")
+                rows.setdefault(is_conn, []).append((tgt.value.id, val, st))
+    ok_rows = True
+    detail = ""
+    if set(rows) != {True, False} or len(rows[True]) != 2 or len(rows[False]) != 2:
+        ok_rows = False
+        detail = f"entries per branch: { {k: len(v) for k, v in rows.items()} }"
+    else:
+        sc = sorted(float(order.fold_const(v)) if order.fold_const(v) is not None else 9e9 for _, v, _ in rows[False])
+        mags = []
+        for _, v, st in rows[True]:
+            pp = _phase_poly(v, b, st, "order")
+            if pp is None:
+                ok_rows = False
+                detail = f"`{au.src(v)}` is not magnitude * rect(1, phase)"
+                break
+            mag, ph = pp
+            ph0 = ph
+            for a in list(ph.atoms()):
+                if a.startswith("t["):
+                    ph0 = _subst_atom(ph0, a, sym.Poly())
+            if not ph0.is_zero() or not mag.is_const():
+                ok_rows = False
+                detail = f"`{au.src(v)}`: phase {ph!r} does not vanish with the transport"
+            mags.append(float(mag.const_value()) if mag.is_const() else 9e9)
+        if ok_rows and (sorted(mags) != sc or sc != [-1.0, 1.0]):
+            ok_rows = False
+            detail = f"connection magnitudes {sorted(mags)} vs scalar entries {sc}"
+    ctx.check(ok_rows, "C18-L1", site, "laplacian_triangles: the gradient rows are not (-1, rect(1, order*transport)) reducing to (-1, 1)",
+              detail + ": for a zero transport (flat connection) the operator must equal the scalar dual Laplacian",
+              note="laplacian_triangles: rows (-1, rect(1, order*t)) reduce to (-1, 1)")
+    rets = [r for r in au.walk(fn) if isinstance(r, ast.Return)]
+    okp = bool(rets)
+    for r in rets:
+        v = r.value
+        chain = []
+        while isinstance(v, ast.BinOp) and isinstance(v.op, ast.MatMult):
+            chain.insert(0, v.right)
+            v = v.left
+        chain.insert(0, v)
+        first = b.resolve(chain[0], at=r) if isinstance(chain[0], ast.Name) and b.reaching(chain[0].id, r) is not None else chain[0]
+        d = b.reaching(chain[0].id, r) if isinstance(chain[0], ast.Name) else chain[0]
+        herm = d is not None and au.src(d) in (f"{au.src(chain[-1])}.conj().transpose()", f"{au.src(chain[-1])}.conjugate().transpose()",
+                                              f"{au.src(chain[-1])}.transpose().conj()", f"{au.src(chain[-1])}.getH()", f"{au.src(chain[-1])}.H")
+        okp = okp and len(chain) in (2, 3) and herm
+    ctx.check(okp, "C18-L1", site, "laplacian_triangles: the result is not N^H @ [D] @ N with N^H the conjugate transpose of N",
+              "Hermitian by construction only in that form", note="laplacian_triangles: N^H [D] N")
+    fl.require(7)
